@@ -4,6 +4,7 @@ specification (Spec/Std.lean).  First lines configure, then one operation per li
 
   cfg <arc|rc|unique> <debug|release> <ceil> <icap> <slots>
   src <hex>                       (adds caller-owned memory; any time)
+  reset                           (empties the pools and the heap, keeps cfg and the src list)
   <op …>                          (see `parseOp`)
   s_push_str h <hex> | s_push_char h <scalar> | s_pop h | s_truncate h n |
   s_try_slice h d SB EB | s_slice h d SB EB | s_from_utf8 d <hex>
@@ -226,6 +227,10 @@ def stepLine (ds : DState) (line : String) : DState × String :=
     match parseCfg toks with
     | some ds' => (ds', "ok")
     | none => (ds, "bad-op")
+  | ["reset"] =>
+    -- same configuration and caller memory, empty pools, fresh heap (one line per sequence)
+    let n := ds.s.pool.length
+    ({ ds with s := init ds.s.srcs n, sp := List.replicate n none }, "ok")
   | ["src", x] =>
     match parseHex x with
     | some bs => ({ ds with s := { ds.s with srcs := ds.s.srcs ++ [bs] } }, "ok")
